@@ -125,6 +125,13 @@ pub fn judge(prop: &str, c: &Case) -> CaseResult {
     for (i, (n, st)) in calls.iter_mut().enumerate() {
         crate::envelope::clamp_sizes_spec(st, n);
         h.u64(st.digest());
+        // the corners the in-context lock-step does not value-compare either (printed-form `=` /
+        // DISCREPANCY on items that print alike, structural CODE instructions on NaN): executed,
+        // so that whatever they leave behind is there for the next call, but not judged
+        if crate::lockstep::context_skip(n, st) {
+            let _ = crate::exec::step_named_on(st, n);
+            continue;
+        }
         match judge_instr(prop, n, st, false) {
             Ok(j) => {
                 if j.compared {
